@@ -32,9 +32,24 @@ pub const BINOPS: [&str; 33] = [
 
 const RIGHTS: [&str; 14] = ["0", "2", "0x0_0", "5e-1", "1e0", "\"\"", "a", "msg.sender", "address(0)", "arr.length", "true", "8", "0x0000_0000", "address(uint160())"];
 
-/// systematic depth-1 expressions
+pub const CONTEXTS: usize = 14;
+
+/// number of leading entries of `depth1()` that are "structural" forms (calls, prefix/postfix, index, slice, member,
+/// tuple, ternary): those are placed in every statement context, the operator products in one context each
+pub fn structural_count() -> usize {
+    depth1_parts().0.len()
+}
+
+/// systematic depth-1 expressions: structural forms first, operator products after them
 pub fn depth1() -> Vec<String> {
+    let (mut a, b) = depth1_parts();
+    a.extend(b);
+    a
+}
+
+fn depth1_parts() -> (Vec<String>, Vec<String>) {
     let mut v: Vec<String> = vec![];
+    let mut ops: Vec<String> = vec![];
     for c in CALLEES.iter() {
         v.push(format!("{}()", c));
         for l in LEAVES.iter() {
@@ -51,9 +66,9 @@ pub fn depth1() -> Vec<String> {
         }
         for l in LEAVES.iter() {
             for r in RIGHTS.iter() {
-                v.push(format!("{} {} {}", l, op, r));
+                ops.push(format!("{} {} {}", l, op, r));
                 if l != r {
-                    v.push(format!("{} {} {}", r, op, l));
+                    ops.push(format!("{} {} {}", r, op, l));
                 }
             }
         }
@@ -77,7 +92,7 @@ pub fn depth1() -> Vec<String> {
         v.push(format!("{} ? {} : {}", l, l, l));
         v.push(format!("a == {} ? 0x0_0 * a : a / 0x0", l));
     }
-    v
+    (v, ops)
 }
 
 fn wrap(pragma: &str, stmts: &[String], inits: &[String]) -> String {
@@ -131,19 +146,41 @@ const PRAGMAS: [&str; 7] = ["0.8.17", "0.7.6", "0.8.3", "0.8.4", "", "0.4.24", "
 
 pub const PER_FILE: usize = 40;
 
+/// (expression index, context) pairs of the systematic part
+fn systematic_pair(j: usize, nstruct: usize) -> (usize, usize) {
+    if j < nstruct * CONTEXTS {
+        (j / CONTEXTS, j % CONTEXTS)
+    } else {
+        let e = nstruct + (j - nstruct * CONTEXTS);
+        (e, e % CONTEXTS)
+    }
+}
+
+fn systematic_pairs(nforms: usize, nstruct: usize) -> usize {
+    nstruct * CONTEXTS + (nforms - nstruct)
+}
+
 pub fn systematic_files() -> u64 {
-    ((depth1().len() + PER_FILE - 1) / PER_FILE) as u64
+    let (a, b) = depth1_parts();
+    ((systematic_pairs(a.len() + b.len(), a.len()) + PER_FILE - 1) / PER_FILE) as u64
 }
 
 /// file number k: the k-th slice of the systematic forms, or (beyond them) forms nested once or twice more at random;
 /// statements that the parser rejects are left out; None if nothing is left
 pub fn file(k: u64, rng: &Rng, forms: &[String]) -> Option<(String, String)> {
-    let nsys = ((forms.len() + PER_FILE - 1) / PER_FILE) as u64;
+    let nstruct = structural_count();
+    let npairs = systematic_pairs(forms.len(), nstruct);
+    let nsys = ((npairs + PER_FILE - 1) / PER_FILE) as u64;
     let mut exprs: Vec<String> = vec![];
+    let mut ctxs: Vec<usize> = vec![];
     let name;
     if k < nsys {
         let lo = k as usize * PER_FILE;
-        exprs.extend(forms[lo..(lo + PER_FILE).min(forms.len())].iter().cloned());
+        for j in lo..(lo + PER_FILE).min(npairs) {
+            let (e, c) = systematic_pair(j, nstruct);
+            exprs.push(forms[e].clone());
+            ctxs.push(c);
+        }
         name = format!("degenerate:systematic:{}", k);
     } else {
         for _ in 0..PER_FILE {
@@ -163,7 +200,7 @@ pub fn file(k: u64, rng: &Rng, forms: &[String]) -> Option<(String, String)> {
         name = format!("degenerate:nested:{}", k);
     }
     let pragma = PRAGMAS[(k % PRAGMAS.len() as u64) as usize];
-    let stmts: Vec<String> = exprs.iter().enumerate().map(|(i, e)| in_context(e, i + k as usize)).collect();
+    let stmts: Vec<String> = exprs.iter().enumerate().map(|(i, e)| in_context(e, if i < ctxs.len() { ctxs[i] } else { i + k as usize })).collect();
     let inits: Vec<String> = if k % 3 == 0 { exprs.iter().take(4).cloned().collect() } else { vec![] };
     let decls: Vec<String> = if k % 4 == 1 { exprs.iter().skip(4).take(6).cloned().collect() } else { vec![] };
     let whole = wrap_with(pragma, &stmts, &inits, &decls);
